@@ -71,6 +71,17 @@ theorem invq_step : ∀ (cfg : Cfg) (s : St) (a : Act), InvQ s → InvQ (step cf
 theorem invq_all (cfg : Cfg) (as : List Act) : InvQ (runAll cfg as) :=
   inv_exec cfg (invq_step cfg) as _ invq_boot
 
+/-- a join recorded in the history is newer than the thread's final store -/
+def InvJ (s : St) : Prop :=
+  (Ev.joined ∈ s.hist → Ev.thrDone ∈ s.hist.dropWhile (fun e => decide (e ≠ Ev.joined))) ∧
+  (s.pc = .done → Ev.thrDone ∈ s.hist) ∧ (Ev.joined ∈ s.hist → s.pc = .done)
+
+theorem invj_step : ∀ (cfg : Cfg) (s : St) (a : Act), InvJ s → InvJ (step cfg s a) := by
+  life_bash InvJ [List.dropWhile]
+
+theorem invj_all (cfg : Cfg) (as : List Act) : InvJ (runAll cfg as) :=
+  inv_exec cfg (invj_step cfg) as _ (by simp [InvJ, St.boot])
+
 /-! ### termination once teardown is requested -/
 
 /-- number of thread moves still possible once `teardown_` is set (longest path to `done`) -/
